@@ -53,7 +53,8 @@ fn datum_of(n: usize, dotted: bool) -> Datum {
 
 /// Runs one cell; returns a short description of what was computed (to keep the optimiser honest).
 fn run_cell(op: &str, builder: &str, n: usize, dotted: bool) -> String {
-    let needs_value = !matches!(op, "parse_value" | "parse_datum" | "datum_clone" | "datum_eq" | "datum_drop" | "datum_walk" | "serde_to_value");
+    let needs_value = !matches!(op, "parse_value" | "parse_datum" | "datum_clone" | "datum_eq" | "datum_drop" | "datum_walk" | "serde_to_value" | "serde_from_map"
+                                   | "serde_to_value_map" | "serde_from_str" | "serde_to_string");
     let v = if needs_value { build(builder, n, dotted) } else { Value::Null };
     match op {
         "parse_value" => format!("{}", lexpr::from_str(&list_text(n, dotted)).map(|v| v.is_cons()).unwrap_or(false)),
@@ -131,6 +132,39 @@ fn run_cell(op: &str, builder: &str, n: usize, dotted: bool) -> String {
         "serde_from_value" => {
             let r: Result<Vec<u64>, _> = serde_lexpr::from_value(&v);
             format!("{:?}", r.map(|x| x.len()).map_err(|e| e.to_string().len()))
+        }
+        "serde_from_ignored_field" => {
+            // a struct that does not know the field holding the long list: Serde skips it (IgnoredAny)
+            #[derive(serde_derive::Deserialize, Debug)]
+            struct Known {
+                a: u32,
+            }
+            let alist = Value::list(vec![Value::cons(Value::symbol("a"), 1u32), Value::cons(Value::symbol("extra"), v)]);
+            let r: Result<Known, _> = serde_lexpr::from_value(&alist);
+            format!("{:?}", r.map(|k| k.a).map_err(|e| e.to_string().len()))
+        }
+        "serde_ignored_any" => {
+            let r: Result<serde::de::IgnoredAny, _> = serde_lexpr::from_value(&v);
+            format!("{}", r.is_ok())
+        }
+        "serde_from_map" => {
+            // an association list of n entries read as a map
+            let alist = Value::append((0..n).map(|i| Value::cons(Value::symbol(format!("k{}", i)), (i % 10) as u64)),
+                                      if dotted { Value::symbol("x") } else { Value::Null });
+            let r: Result<std::collections::BTreeMap<String, u64>, _> = serde_lexpr::from_value(&alist);
+            format!("{:?}", r.map(|m| m.len()).map_err(|e| e.to_string().len()))
+        }
+        "serde_to_value_map" => {
+            let m: std::collections::BTreeMap<u32, u32> = (0..n as u32).map(|i| (i, i % 10)).collect();
+            format!("{}", serde_lexpr::to_value(&m).map(|v| v.is_cons() || v.is_null()).unwrap_or(false))
+        }
+        "serde_from_str" => {
+            let r: Result<Vec<u64>, _> = serde_lexpr::from_str(&list_text(n, dotted));
+            format!("{:?}", r.map(|x| x.len()).map_err(|e| e.to_string().len()))
+        }
+        "serde_to_string" => {
+            let xs: Vec<u32> = (0..n as u32).collect();
+            format!("{}", serde_lexpr::to_string(&xs).map(|s| s.len()).unwrap_or(0))
         }
         x => panic!("operation {}", x),
     }
